@@ -3,6 +3,8 @@
 package livesql
 
 import (
+	"database/sql"
+
 	"github.com/samsarahq/thunder/logger"
 	"github.com/samsarahq/thunder/sqlgen"
 	"github.com/siddontang/go-mysql/replication"
@@ -13,6 +15,16 @@ func VerifParseBinlogRow(table *sqlgen.Table, row []interface{}) (interface{}, e
 	cm := &columnMap{expectedColumns: len(row)}
 	for i := range table.Columns {
 		cm.source = append(cm.source, i)
+	}
+	return parseBinlogRow(table, row, cm)
+}
+
+// VerifParseBinlogRowVia decodes a change-log row whose columns are in the database's column order: the column
+// permutation is built by the real buildColumnMap from what information_schema (conn) reports.
+func VerifParseBinlogRowVia(conn *sql.DB, database string, table *sqlgen.Table, row []interface{}) (interface{}, error) {
+	cm, err := buildColumnMap(conn, database, table)
+	if err != nil {
+		return nil, err
 	}
 	return parseBinlogRow(table, row, cm)
 }
